@@ -737,7 +737,20 @@ class ExprMixin(object):
                 yield st1, Slice(*vals)
             return
         if isinstance(node, ast.Tuple) and any(isinstance(e, ast.Slice) for e in node.elts):
-            raise Unsupported("multi-dimensional slicing")
+            # a[i, :] - evaluated to a tuple of indices / slices; whether the container supports it is the container's business
+            states = [(st, [])]
+            for e in node.elts:
+                nxt = []
+                for s, acc in states:
+                    for s1, v in self.ev_index(e, s):
+                        if isinstance(v, Raised):
+                            yield s1, v
+                        else:
+                            nxt.append((s1, acc + [v]))
+                states = nxt
+            for s, acc in states:
+                yield s, TupleV(acc)
+            return
         for r in self.ev(node, st):
             yield r
 
